@@ -26,13 +26,17 @@ def scenario(ctx, i):
     C, D, N = gen.dims(ctx, nmax_q=12, nmax_t=40)
     w, m, v, sc = gen.gmm_params(r, C, D)
     thr = None
-    kind = ["bulk", "tail", "bulk", "floor"][i % 4]
+    kind = ["bulk", "tail", "mixed", "floor", "bulk"][i % 5]
     if kind == "floor":
         thr = float(np.exp(r.uniform(np.log(0.05), np.log(2)))) * (sc**2)
         thr = np.broadcast_to(thr, (C, D)).copy()
-    tail = float(10 ** r.uniform(1, 3.7)) if kind == "tail" else None
+    tail = float(10 ** r.uniform(1, 3.7)) if kind in ("tail", "mixed") else None
     x = gen.sample_data(r, w, m, v, N, tail=tail)
-    order = ["thr_first", "thr_last", "restage", "ubm_copy"][(i // 4) % 4] if kind == "floor" else ["thr_first", "restage", "ubm_copy"][i % 3]
+    if kind == "mixed":  # bulk and far-tail rows in one batch (and, under Dask, possibly in one chunk)
+        keep = r.random(N) < 0.5
+        keep[0], keep[-1] = True, False
+        x = np.where(keep[:, None], gen.sample_data(r, w, m, v, N), x)
+    order = ["thr_first", "thr_last", "restage", "ubm_copy"][(i // 5) % 4] if kind == "floor" else ["thr_first", "restage", "ubm_copy"][i % 3]
     return dict(kind=kind, C=C, D=D, w=w, m=m, v=v, thr=thr, x=x, tail=tail, order=order)
 
 
@@ -69,7 +73,7 @@ def correspondence(ctx):
         ctx.count("kind:" + sc["kind"])
         ctx.count("build:" + sc["order"])
         ctx.count(f"C={sc['C']}")
-        ctx.case([sc["C"], sc["D"], core.tolist(sc["m"]), core.tolist(sc["x"])], nontrivial=sc["C"] >= 2 or sc["kind"] == "tail",
+        ctx.case([sc["C"], sc["D"], core.tolist(sc["m"]), core.tolist(sc["x"])], nontrivial=sc["C"] >= 2 or sc["kind"] in ("tail", "mixed"),
                  sample={"C": sc["C"], "D": sc["D"], "kind": sc["kind"], "rows": len(sc["x"]), "chunks": sc["sizes"], "x0": sc["x"][0], "ll0_model": core.dec(o["ll"])[0] if "ll" in o else None})
         if "err" in o:
             bad.append({"op": "gmm_ll:ll", "input": sc, "model": o, "impl": None})
